@@ -1,0 +1,13 @@
+//go:build verif
+
+package cluster
+
+import "github.com/semafind/semadb/models"
+
+// Exports for verification harnesses.
+
+type VerifShardInfo = shardInfo
+
+func VerifDistributePoints(shards []VerifShardInfo, points []models.Point, maxShardSize, maxShardPointCount int64, createShardFn func() (string, error)) (map[string][2]int, error) {
+	return distributePoints(shards, points, maxShardSize, maxShardPointCount, createShardFn)
+}
